@@ -255,6 +255,11 @@ class BundleFlattener(ElabPass):
         particularly between the Instance and instantiating module.
         """
 
+        if inst._parent_module is None:
+            # Not (or no longer) part of any Module: an Instance displaced by another of its name, or consumed by `n * inst`,
+            # is still listed among the ports connected to the Bundle. It has no connections to re-make.
+            return
+
         entry = BundlePortEntry(inst.of, portname)
         flat_bundle_port = THE_CACHE.flat_bundle_ports.get(entry, None)
         if flat_bundle_port is None:
